@@ -204,7 +204,7 @@ def contract_problem(argv, r, d):
     return None
 
 
-def files_vs_stdout(argv, r, d):
+def files_vs_stdout(argv, r, d, stdin_text=""):
     """for a successful `assemble` without --stdout: the files have the content of the --stdout output"""
     if r["code"] != 0 or "assemble" not in argv or "--stdout" in argv or not r["created"]:
         return None
@@ -214,8 +214,9 @@ def files_vs_stdout(argv, r, d):
         return "assemble created {}".format(r["created"])
     base = [a for a in argv if a not in ("--code", "--data")]
     # (flags go in front: after `--` they would be taken as paths)
-    rc = run_real(["--stdout", "--code"] + base, d)
-    rd = run_real(["--stdout", "--data"] + base, d)
+    # (the same standard input: with `-` as the path the program itself comes from there)
+    rc = run_real(["--stdout", "--code"] + base, d, stdin_text)
+    rd = run_real(["--stdout", "--data"] + base, d, stdin_text)
     if rc["code"] != 0 or rd["code"] != 0:
         return "assemble succeeds into files but fails with --stdout"
     # (reading the program from stdin prints one separating blank line first, by design)
@@ -266,7 +267,7 @@ def check(seed, n):
             seen.add(tuple(argv))
             case = {"argv": argv, "stdin": stdin_text}
             proto.sample("cli", case)
-            p = contract_problem(argv, r, d) or files_vs_stdout(argv, r, d)
+            p = contract_problem(argv, r, d) or files_vs_stdout(argv, r, d, stdin_text)
             if isinstance(r["code"], int) and not r["exc"]:
                 dist["status{}".format(r["code"])] = dist.get("status{}".format(r["code"]), 0) + 1
             if p:
@@ -292,6 +293,6 @@ def replay_case(case):
     d = setup_dir()
     try:
         r = run_real(case["argv"], d, case.get("stdin", ""))
-        return contract_problem(case["argv"], r, d) or files_vs_stdout(case["argv"], r, d)
+        return contract_problem(case["argv"], r, d) or files_vs_stdout(case["argv"], r, d, case.get("stdin", ""))
     finally:
         shutil.rmtree(d, ignore_errors=True)
